@@ -518,7 +518,7 @@ func init() {
 	core.Register(&core.Check{
 		ID:          "C01",
 		Level:       "model_checking",
-		Rule:        "programs enumerated exhaustively from typed families (G-val: operators x boundary operand pairs; G-expr: unparenthesised operator chains x typed leaves, testing precedence/associativity through an independent parser; G-index: containers of size 0..10 x index/slice/assignment forms x indices; G-stmt: skeletons x all short sequences of a statement alphabet covering every loop form, control statement, scoping form, closures, recursion, variadics; G-syn: all small syntax trees, mostly ill-typed). Each program runs on an independent reference evaluator (own tokenizer, own precedence-climbing parser, immutable values) and on the implementation in the plain configuration (registers off, cache off) and the default one; printed text, final value (type-tagged structural dump) and error/no-error are compared. Programs the reference does not model are counted as unsupported and not compared. Non-trivial = compared; distinct by program text. Also: the statement family on a state without any context (State.Eval as a library calls it); error identity: 49 constructs x 3 scopes whose operand raises a marked error - the message caught around the construct is that one, also without context, and 340000 repetitions of the caught construct still run (nothing accumulates per caught error).",
+		Rule:        "programs enumerated exhaustively from typed families (G-val: operators x boundary operand pairs; G-expr: unparenthesised operator chains x typed leaves, testing precedence/associativity through an independent parser; G-index: containers of size 0..10 x index/slice/assignment forms x indices; G-stmt: skeletons x all short sequences of a statement alphabet covering every loop form, control statement, scoping form, closures, recursion, variadics; G-syn: all small syntax trees, mostly ill-typed). Each program runs on an independent reference evaluator (own tokenizer, own precedence-climbing parser, immutable values) and on the implementation in the plain configuration (registers off, cache off) and the default one; printed text, final value (type-tagged structural dump) and error/no-error are compared. Programs the reference does not model are counted as unsupported and not compared. Non-trivial = compared; distinct by program text. Also: the statement family on a state without any context (State.Eval as a library calls it); error identity: 49 constructs x 3 scopes whose operand raises a marked error - the message caught around the construct is that one, also without context, and 340000 repetitions of the caught construct still run (nothing accumulates per caught error). Round 7: print arguments, array elements, call arguments, map keys and index expressions whose evaluation changes an outer variable read by a neighbour (left to right); closures of one factory calling each other; range bounds held by outer variables; the statement family (short programs) at debug log level.",
 		Assume:      []string{"reference semantics of DESIGN.md §5 (internal/ref)", "error message wording is never compared"},
 		QuickCap:    100 * time.Second,
 		ThoroughCap: 20 * time.Minute,
